@@ -99,3 +99,87 @@ theorem C12_never_shrinks (reqs : List (Bool × ApiReq α)) :
     exact ih _ h3 h4 x y (h1 x y h)
 
 end ERP.C12
+
+/-! ## The acceptance criterion of a guarded update, exactly (session 5)
+
+`request_monotone` shows that whatever is accepted is safe.  With `C17.containsRegion_iff` the
+converse is available too: an update is accepted *iff* the new geometry covers the old region, so
+the guard neither lets a shrinking update through nor refuses a covering one.  The side condition
+`C17.Region.Proper` (ordered corners, non-negative radius) is genuinely needed for "refuses no
+covering update": a stored circle with a negative radius has no points, is covered by anything,
+and may still be refused by `hypot + r_old ≤ r_new`. -/
+namespace ERP.C12
+open ERP
+set_option linter.unusedSectionVars false
+variable {α : Type} [Field α] [LinearOrder α] [IsStrictOrderedRing α] [MathOps α] [MathSpec α]
+  [OfDecimal α]
+
+/-- the first region of the list with the id of `new`, if any: the one an update replaces -/
+def firstWithId (rs : List (Region α)) (new : Region α) : Option (Region α) :=
+  rs.find? (fun r => r.id == new.id)
+
+/-- **Acceptance criterion of a guarded update, exactly.** With the must-contain-old check on,
+`replaceRegion` succeeds precisely when the list holds a region with the new region's id and the
+new region covers every point of (the first) such region; otherwise it raises and, by
+`request_monotone`, nothing changes.  (`⇐` needs the old region to be one the plugin can hold,
+`C17.Region.Proper`; `⇒` is unconditional.) -/
+theorem replaceFirst_accepts_iff (rs : List (Region α)) (new : Region α)
+    (hp : ∀ r ∈ rs, C17.Region.Proper r) :
+    (∃ rs', replaceFirst rs new true = .ok rs') ↔
+      ∃ old, firstWithId rs new = some old ∧
+        ∀ x y, old.containsPoint x y = true → new.containsPoint x y = true := by
+  induction rs with
+  | nil => simp [replaceFirst, firstWithId]
+  | cons r rest ih =>
+    have hpr := hp r (List.mem_cons_self)
+    have ih' := ih (fun q hq => hp q (List.mem_cons_of_mem _ hq))
+    by_cases hid : (r.id == new.id) = true
+    · simp only [replaceFirst, hid, if_true, firstWithId, List.find?_cons_of_pos, Bool.true_and,
+        Option.some.injEq, exists_eq_left']
+      rw [← C17.containsRegion_iff new r hpr]
+      cases hc : new.containsRegion r <;> simp
+    · have hid' : (r.id == new.id) = false := by simpa using hid
+      simp only [firstWithId] at ih' ⊢
+      simp only [replaceFirst, Bool.false_eq_true, if_false, List.find?_cons, hid']
+      rw [← ih']
+      constructor
+      · rintro ⟨rs', h⟩
+        obtain ⟨t, ht, _⟩ := M.bind_eq_ok h
+        exact ⟨t, ht⟩
+      · rintro ⟨t, ht⟩
+        exact ⟨r :: t, by rw [ht]; rfl⟩
+
+end ERP.C12
+
+namespace ERP.C12
+open ERP
+set_option linter.unusedSectionVars false
+variable {α : Type} [Field α] [LinearOrder α] [IsStrictOrderedRing α] [MathOps α] [MathSpec α]
+  [OfDecimal α]
+
+/-- **The update clause of C12 at the API.** While a print is active and shrinking is off, an
+authorised update request is answered without an error status exactly when a region with that id
+exists and the new geometry covers all of it; in every other case the answer is 409 and the
+plugin is unchanged. -/
+theorem update_accepted_iff (p : Plugin α) (hact : p.activePrintJob = true)
+    (hs : p.mayShrinkRegionsWhilePrinting = false) (new : Region α)
+    (hp : ∀ r ∈ p.st.excludedRegions, C17.Region.Proper r) :
+    let r := p.onApiCommand false (.update new)
+    (r.2 = none ↔ ∃ old, firstWithId p.st.excludedRegions new = some old ∧
+        ∀ x y, old.containsPoint x y = true → new.containsPoint x y = true) ∧
+    (r.2 ≠ none → r = (p, some 409)) := by
+  have key := replaceFirst_accepts_iff p.st.excludedRegions new hp
+  simp only [Plugin.onApiCommand, Bool.false_eq_true, if_false, FState.replaceRegion, hs, hact,
+    Bool.not_false, Bool.and_self]
+  cases hr : replaceFirst p.st.excludedRegions new true with
+  | error e =>
+    rw [hr] at key
+    simp only [reduceCtorEq, exists_false, false_iff] at key
+    refine ⟨⟨fun h => ?_, fun h => absurd h key⟩, fun _ => rfl⟩
+    simp [M.error_bind] at h
+  | ok t =>
+    rw [hr] at key
+    simp only [M.ok_bind]
+    exact ⟨⟨fun _ => key.mp ⟨t, rfl⟩, fun _ => trivial⟩, fun h => absurd rfl h⟩
+
+end ERP.C12
